@@ -151,6 +151,41 @@ func treeRun(sc *Scenario) *TreeOut {
 		}
 	}
 
+	if c20Arm {
+		env.DB.ReadBudget = readBudget(0)
+		allocOpen, allocStart, allocSeq := false, uint64(0), 0
+		var allocOp byte
+		var allocCost uint64
+		var allocMem int
+		closeAlloc := func() {
+			if !allocOpen {
+				return
+			}
+			allocOpen = false
+			if d := memTotalAlloc() - allocStart; d > allocBudget(allocCost, allocMem) {
+				c20Violations = append(c20Violations, Violation{Prop: "C20", Rule: "C20.alloc", Sig: siteOfOp(allocOp), Seq: allocSeq,
+					Msg: fmt.Sprintf("instruction %s (cost %d gas, memory %d bytes) made the VM allocate %d bytes", siteOfOp(allocOp), allocCost, allocMem, d)})
+			}
+		}
+		env.Rec.OnStep = func(e *Ev) {
+			closeAlloc()
+			env.DB.Reads = 0
+			env.DB.ReadBudget = readBudget(e.Cost)
+			if c20Alloc && e.Err == "" && (isJournalOp(e.Op) || isCallOp(e.Op) || e.Op == 0x37 || e.Op == 0x39 || e.Op == 0x3c || e.Op == 0x3e || e.Op == 0x5e || e.Op == 0x20) {
+				allocOpen, allocStart, allocSeq, allocOp, allocCost, allocMem = true, memTotalAlloc(), e.Seq, e.Op, e.Cost, e.MemLen
+			}
+		}
+		t.L.onEv = append(t.L.onEv, func(e *Ev) {
+			if e.K == evTxDone {
+				closeAlloc()
+			}
+			if e.K == evTxBegin {
+				env.DB.Reads = 0
+				env.DB.ReadBudget = readBudget(0)
+			}
+		})
+	}
+
 	// ---- online monitors ----
 	var muts []mutRec
 	var scopes []scopeRec
@@ -282,7 +317,7 @@ func swallowedSite(s string) string {
 		tl := strings.TrimSpace(l)
 		if strings.HasPrefix(tl, "/repo/") && i > 0 {
 			fn := strings.TrimSpace(lines[i-1])
-			if p := strings.Index(fn, "("); p > 0 {
+			if p := strings.LastIndex(fn, "("); p > 0 {
 				fn = fn[:p]
 			}
 			if p := strings.LastIndex(fn, "/"); p >= 0 {
